@@ -188,8 +188,13 @@ def run_native(exe, inputs, wd, tag):
                 fp.write("%s %d\n" % (n, v))
     env = dict(os.environ, VF_INPUTS=f)
     try:
+        def lift():
+            try:
+                resource.setrlimit(resource.RLIMIT_AS, (resource.getrlimit(resource.RLIMIT_AS)[1],) * 2)
+            except Exception:
+                pass
         r = subprocess.run(["timeout", "20", exe], stdout=subprocess.PIPE, stderr=subprocess.PIPE, env=env, text=True,
-                           errors="replace", cwd=wd)
+                           errors="replace", cwd=wd, preexec_fn=lift)
     finally:
         os.unlink(f)
     out = {"rc": r.returncode, "lines": [], "done": False, "assume_false": False, "stderr": r.stderr[-2000:]}
@@ -389,7 +394,8 @@ def _run_one(o, mod, dem, ll, wd, tier, seed, R, log, irsym):
         if c.get("kind") == "lock" and opts.get("confirm", "").startswith("stress:"):
             failing, how = stress_confirm(os.path.join(ROOT, opts["confirm"][7:]), wd), "multi-threaded stress run against the library IR"
         c2 = {"label": c["label"], "detail": c.get("detail", ""), "inputs": {n: v for n, v in vec},
-              "replayed": bool(failing), "confirmed_how": how, "native": [list(x) for x in nat["lines"][:6]]}
+              "replayed": bool(failing), "confirmed_how": how, "native": [list(x) for x in nat["lines"][:6]],
+              "pc_tail": c.get("pc")}
         R["cex"].append(c2)
         if failing:
             confirmed.append(c2)
